@@ -6,12 +6,13 @@ use std::panic::{catch_unwind, resume_unwind, AssertUnwindSafe};
 use std::sync::atomic::Ordering;
 
 use happylock::ThreadKey;
+use serde::{Deserialize, Serialize};
 
 use crate::rt::{self, CallKind, Mode, Policy, UserPanic};
 use crate::spec::{Spec, Target};
 use crate::world::{Held, KeyArg, Scoped, Visit};
 
-#[derive(Clone, Copy, Debug, PartialEq, Eq, Hash, PartialOrd, Ord)]
+#[derive(Clone, Copy, Debug, PartialEq, Eq, Hash, PartialOrd, Ord, Serialize, Deserialize)]
 pub enum Flavour {
 	/// lock()/read(), use, drop guard
 	Guard,
@@ -55,7 +56,7 @@ impl Flavour {
 	}
 }
 
-#[derive(Clone, Copy, Debug, PartialEq, Eq, Hash, PartialOrd, Ord)]
+#[derive(Clone, Copy, Debug, PartialEq, Eq, Hash, PartialOrd, Ord, Serialize, Deserialize)]
 pub struct Body {
 	/// read (and, in exclusive sections, increment) every payload
 	pub touch: bool,
@@ -70,7 +71,7 @@ impl Body {
 	pub const PANIC: Body = Body { touch: true, yield_mid: false, panic: true };
 }
 
-#[derive(Clone, Debug, PartialEq, Eq, Hash, PartialOrd, Ord)]
+#[derive(Clone, Debug, PartialEq, Eq, Hash, PartialOrd, Ord, Serialize, Deserialize)]
 pub enum Step {
 	Acq { target: usize, write: bool, flavour: Flavour, body: Body },
 	IsPoisoned(usize),
@@ -78,7 +79,7 @@ pub enum Step {
 	Debug(usize),
 }
 
-#[derive(Clone, Debug)]
+#[derive(Clone, Debug, Serialize, Deserialize)]
 pub struct Program {
 	pub specs: Vec<Spec>,
 	pub threads: Vec<Vec<Step>>,
